@@ -1,8 +1,9 @@
 """Gen.Lifecycle: which attributes of the long-lived objects (HTMLParser, TreeBuilder) are written anywhere, and which
 are definitely (re)assigned by `_parse` / `reset` before `mainLoop` runs — extracted from the AST of /repo."""
 import ast
+import os
 
-from extract import register, HEADER, FOOTER, strlist, src, sha, TranslationError
+from extract import register, HEADER, FOOTER, strlist, src, sha, TranslationError, REPO
 import pylite
 
 
@@ -208,6 +209,67 @@ def gen_lifecycle():
                         writes |= {"%s.%s" % (m.name, a) for a in attr_targets(m, is_self)}
     out += "/-- attributes written by the trie lookups the tokenizer calls (must be none: the trie is shared process-wide) -/\n"
     out += "def trieLookupWrites : List Str := %s\n" % strlist(sorted(writes))
+    # ---- objects shared by every parser in the process: instances created at module level or in a class body
+    # (dispatch tables `startTagHandler = _utils.MethodDispatcher([...])`, the entity trie, …).  Their classes must not
+    # write to `self` outside construction, or independent parsers running in different threads meet through them.
+    import glob
+    mods = {}
+    for path in sorted(glob.glob(os.path.join(REPO, "html5lib", "**", "*.py"), recursive=True)):
+        rel = os.path.relpath(path, REPO)
+        if "/tests/" in rel or rel.endswith("conftest.py"):
+            continue
+        try:
+            mods[rel] = ast.parse(open(path, encoding="utf-8").read())
+        except SyntaxError:
+            continue
+    classes = {}
+    for rel, t in mods.items():
+        for c in ast.walk(t):
+            if isinstance(c, ast.ClassDef):
+                classes.setdefault(c.name, []).append(c)
+
+    def level_calls(body):
+        """constructor names called while a module / class body is executed (not inside function bodies)"""
+        found = set()
+        stack = list(body)
+        while stack:
+            n = stack.pop()
+            if isinstance(n, (ast.FunctionDef, ast.AsyncFunctionDef, ast.Lambda)):
+                continue
+            if isinstance(n, ast.ClassDef):
+                stack.extend(n.body)
+                continue
+            if isinstance(n, ast.Call):
+                f = n.func
+                name = f.id if isinstance(f, ast.Name) else f.attr if isinstance(f, ast.Attribute) else None
+                if name in classes:
+                    found.add(name)
+            stack.extend(ast.iter_child_nodes(n))
+        return found
+    shared = set()
+    for rel, t in mods.items():
+        shared |= level_calls(t.body)
+    MUTATORS = {"append", "extend", "insert", "pop", "popitem", "remove", "clear", "update", "setdefault", "add", "discard",
+                "sort", "reverse", "__setitem__", "__delitem__"}
+    swrites = set()
+    for name in sorted(shared):
+        for c in classes[name]:
+            for m in c.body:
+                if not isinstance(m, ast.FunctionDef) or m.name in ("__init__", "__new__"):
+                    continue
+                for a in attr_targets(m, is_self):
+                    swrites.add("%s.%s.%s" % (name, m.name, a))
+                for n in ast.walk(m):
+                    # self[...] = v / del self[...] / self.mutator(...)
+                    if isinstance(n, ast.Subscript) and isinstance(n.ctx, (ast.Store, ast.Del)) and is_self(n.value):
+                        swrites.add("%s.%s.[]" % (name, m.name))
+                    if isinstance(n, ast.Call) and isinstance(n.func, ast.Attribute) and is_self(n.func.value) \
+                            and n.func.attr in MUTATORS:
+                        swrites.add("%s.%s.%s()" % (name, m.name, n.func.attr))
+    out += "/-- classes of html5lib instantiated at module level or in a class body (shared by all parsers of the process) -/\n"
+    out += "def sharedClasses : List Str := %s\n" % strlist(sorted(shared))
+    out += "/-- writes to `self` (attribute, item, mutating call) in their methods outside `__init__` -/\n"
+    out += "def sharedClassWrites : List Str := %s\n" % strlist(sorted(swrites))
     # module-level mutable containers written from functions of the parser path
     out += "-- fingerprint HTMLParser.reset %s\n-- fingerprint HTMLParser._parse %s\n-- fingerprint TreeBuilder.reset %s\n" % (
         sha(ast.dump(methods["reset"])), sha(ast.dump(methods["_parse"])), sha(ast.dump(bmethods["reset"])))
